@@ -5,7 +5,7 @@ PLAN = dict(
           "DumpExchangeHeaders, ComputeHeaderIntegrity, DumpSignedMessage, the Signature header and Write output are compared byte for byte with refsxg "
           "(with real ECDSA the sig parameter is verified by crypto/ecdsa over the REFERENCE message, SHA-256 for P-256 / SHA-384 for P-384). "
           "reverse: a file assembled entirely by refsxg and signed with ecdsa.SignASN1 must be accepted by ReadExchange + Verify and return the payload. "
-          "signer-reuse: one Signer object signs exchange A, is re-pointed at another certificate for the same key with other dates / URLs, then signs exchange B, whose bytes must be the specification's for the signer's current fields. Non-trivial: header CBOR >= 256 bytes or >= 24 headers (forward); every reverse case."),
+          "signer-reuse: one Signer object signs exchange A, is re-pointed at another certificate for the same key with other dates / URLs, (in between, in 4 cases of 5, the same Signer makes a signing attempt that the library refuses: a validity / certificate URL that cannot be written as a structured-header string, or a non-https certificate URL), then signs exchange B, whose bytes must be the specification's for the signer's current fields. Non-trivial: header CBOR >= 256 bytes or >= 24 headers (forward); every reverse case."),
     assumptions=TRUSTED + ["the Digest / MI-Draft2 header value is taken from the library's MI encoder (its conformance is property C14)",
                            "signers have at least one certificate"],
     technique="rapid-generated exchanges, differential against an independent re-implementation of the signed-exchange spec, in both directions",
